@@ -174,10 +174,53 @@ static unsigned long long digest_run(const Program &p, long budget) {
   return h.h;
 }
 
+static unsigned long long digest_vm(VM &vm, long n) {
+  H h;
+  h.i(n);
+  h.i(vm.isDone());
+  for (auto &a : vm.getActivations()) {
+    h.i(0xabc);
+    for (auto &v : a.getActivationVariables()) {
+      h.s(v.first);
+      h.i(v.second);
+    }
+  }
+  return h.h;
+}
+
+// distinct VM instances never influence one another: two machines on the same program, stepped alternately in one
+// thread, the second one driven like a debugger (stepping on, every breakpoint enabled, a reset half way); the first
+// one must end exactly like a machine that ran alone.  returns 1 if it does.
+static int interleaved_ok(const Program &p, long budget) {
+  VM solo(p);
+  long n = 0;
+  while (n < budget && !solo.isDone()) {
+    solo.executeSingle();
+    n++;
+  }
+  unsigned long long want = digest_vm(solo, n);
+  VM a(p), b(p);
+  Program copy = p;
+  b.setSteppingMode(true);
+  for (auto &bp : copy.getAvailableBreakpoints()) b.setBreakPoint(bp.file, bp.line, true);
+  long na = 0, nb = 0;
+  while (na < budget && !a.isDone()) {
+    a.executeSingle();
+    na++;
+    if (!b.isDone()) {
+      b.executeSingle();
+      nb++;
+    }
+    if (nb == n / 2 + 1) b.reset();
+  }
+  return digest_vm(a, na) == want ? 1 : 0;
+}
+
 struct Rec {
   int thread, input, stage;
   long long start, end;
   unsigned long long digest;
+  int ok = 1;
 };
 
 static long long now_ns() {
@@ -215,8 +258,9 @@ int main(int argc, char **argv) {
     if (cr.generated_correctly) {
       s = now_ns();
       d = digest_run(cr.code, budget);
+      int ok = interleaved_ok(cr.code, budget);
       e = now_ns();
-      out.push_back({t, k, 1, s, e, d});
+      out.push_back({t, k, 1, s, e, d, ok});
     }
   };
   if (threads == 0) {
@@ -243,8 +287,8 @@ int main(int argc, char **argv) {
   for (auto &v : recs)
     for (auto &r : v) {
       char b[160];
-      snprintf(b, sizeof b, "%s[%d,%d,%d,%lld,%lld,\"%llu\"]", f ? "" : ",", r.thread, r.input, r.stage,
-               r.start, r.end, r.digest);
+      snprintf(b, sizeof b, "%s[%d,%d,%d,%lld,%lld,\"%llu\",%d]", f ? "" : ",", r.thread, r.input, r.stage,
+               r.start, r.end, r.digest, r.ok);
       f = false;
       o += b;
     }
